@@ -156,6 +156,8 @@ class GMonthDay:
             raise ValueError("{} is out of the allowed range for day of month".format(day))
         if not 1 <= month <= 12:
             raise ValueError("{} is out of the allowed range for month".format(month))
+        if day > (29 if month == 2 else 30 if month in (4, 6, 9, 11) else 31):
+            raise ValueError("{} is out of the allowed range for day of month {}".format(day, month))
         self.month: int = month
         self.day: int = day
         self.tzinfo: Optional[datetime.tzinfo] = tzinfo
@@ -483,7 +485,9 @@ def xsd_repr(value: AnyXSDType) -> str:
 
 def _serialize_date_tzinfo(date: Union[Date, GYear, GMonth, GDay, GYearMonth, GMonthDay]) -> str:
     if date.tzinfo is not None:
-        if not isinstance(date, Date):
+        if isinstance(date, GMonthDay):
+            date = date.into_date(2000)  # a leap year, so that --02-29 can be converted
+        elif not isinstance(date, Date):
             date = date.into_date()
         offset: datetime.timedelta = date.tzinfo.utcoffset(datetime.datetime(date.year, date.month, date.day, 0, 0, 0))
         offset_seconds = offset.total_seconds()
